@@ -248,6 +248,7 @@ static void obs_sig_deliver(int tid, int sig, int phase)
 static void obs_lock_event(int tid, void *addr, int acquired, int spin)
 {
 	(void)addr;
+	engine_lock_event(tid, acquired, spin);
 	if (!spin)
 		return;
 	if (!acquired) {
